@@ -263,6 +263,26 @@ theorem C06_time_only_is_time_iou (G : Geos σ) (g1 g2 : Geom) (tb fb : Rat) (p1
     · rw [prepare_time_only G g2 tb fb p2 ht h2]; simp
   simp only [affinityP, this, if_true]
 
+/-- `compute_affinity` composes the dispatch (`timeBranchArgs`: which bounds reach
+    `compute_affinity_in_time`) with the time IoU — the two halves that the symbolic ties
+    re-derive from the source separately -/
+theorem C06_time_branch_composes (G : Geos σ) (g1 g2 : Geom) (tb fb s1 e1 s2 e2 : Rat)
+    (h : timeBranchArgs G g1 g2 tb fb = some (s1, e1, s2, e2)) :
+    affinity G g1 g2 tb fb = .ok (timeIoU s1 e1 s2 e2) := by
+  unfold timeBranchArgs at h
+  unfold affinity
+  rcases h1 : prepare G g1 tb fb with e | p1 <;> rcases h2 : prepare G g2 tb fb with e' | p2 <;>
+    rw [h1, h2] at h <;> simp only at h
+  · cases h
+  · cases h
+  · cases h
+  · by_cases ht : (isTime p1 || isTime p2) = true
+    · rw [if_pos ht] at h
+      cases h
+      simp only [affinityP, ht, if_true]
+    · rw [if_neg ht] at h
+      cases h
+
 /-- the (buffered) time extents in closed form: a time stamp `t` becomes
     `[max(t - tb, 0), t + tb]`, intervals and boxes keep `[start, end]` -/
 theorem C06_time_extents (G : Geos σ) (tb fb : Rat) (hb : 0 ≤ tb ∧ 0 ≤ fb) :
